@@ -1,12 +1,12 @@
 SPECIFICATION GSpec
 CONSTANTS Callers = {c1, c2, c3}
- MaxTick = 6
- MaxRot = 1
+ MaxTick = 8
+ MaxRot = 0
  MaxAtt = 2
  FreshKey = FALSE
- MaxJunk = 1
- MaxClose = 2
- MaxBad = 0
- Kinds = {"obj", "vec"}
+ MaxJunk = 0
+ MaxClose = 0
+ MaxBad = 2
+ Kinds = {"obj"}
  Dev = {}
 CHECK_DEADLOCK FALSE
